@@ -11,6 +11,10 @@
 #include <nstd/Debug.hpp>
 #include <nstd/Thread.hpp>
 
+#ifdef LIBNSTD_VERIF
+extern "C" void libnstd_verif_point(int id) __attribute__((weak)); // verification schedule point (no-op unless the harness defines it)
+#endif
+
 Thread::Thread() : thread(0)//, threadId(0)
 {
 #ifdef _WIN32
@@ -75,6 +79,10 @@ bool Thread::start(uint (*proc)(void*), void* param)
   pthread_t thread;
   if(pthread_create(&thread, 0, (void* (*) (void *)) proc, param) != 0)
     return false;
+#ifdef LIBNSTD_VERIF
+  if(libnstd_verif_point)
+    libnstd_verif_point(20);
+#endif
   this->thread = (void*)thread;
   return true;
 #endif
